@@ -201,7 +201,9 @@ func c08InProcess(dir string, cs c08Case) (*lib.Violation, string) {
 	lastOK := strings.HasSuffix(obs, "ok;")
 	if exists && len(ref) > 0 {
 		mainP := filepath.Join(dir, "nb", "main.yml")
-		mainC := []Cmd{{Command: "main one", Description: "from the main file", Keywords: []string{"mainword"}}}
+		mainC := []Cmd{{Command: "main one", Description: "from the main file", Keywords: []string{"mainword"}},
+			// the main file may already list the very command string the user saves with their own words
+			{Command: ref[len(ref)-1].Command, Description: "the main file's own entry for this command", Keywords: []string{"mainword"}}}
 		writeYAML(mainP, mainC)
 		db, err := database.LoadDatabaseWithPersonal(mainP, path)
 		if err != nil {
@@ -209,7 +211,7 @@ func c08InProcess(dir string, cs c08Case) (*lib.Violation, string) {
 		}
 		want := append(append([]Cmd{}, mainC...), ref...)
 		if len(db.Commands) != len(want) {
-			return &lib.Violation{Key: "merge-order", What: fmt.Sprintf("merged database has %d entries, expected main(1)+notebook(%d)", len(db.Commands), len(ref)), Case: cs}, obs
+			return &lib.Violation{Key: "merge-order", What: fmt.Sprintf("merged database has %d entries, expected main(2)+notebook(%d)", len(db.Commands), len(ref)), Case: cs}, obs
 		}
 		for i := range want {
 			if !sameEntry(&db.Commands[i], &want[i]) {
@@ -221,7 +223,7 @@ func c08InProcess(dir string, cs c08Case) (*lib.Violation, string) {
 			if lastOK && refContains(&last, word) {
 				found := false
 				for _, r := range db.SearchUniversal(word, Opts{Limit: 50, AllPlatforms: true}) {
-					if r.Command.Command == last.Command {
+					if r.Command.Command == last.Command && r.Command.Description == last.Description {
 						found = true
 					}
 				}
@@ -292,6 +294,11 @@ func c08HistoryAlphabet() []Cmd {
 		{Command: "first --keep", Description: "replaces a starting entry zqxsaved", Pipeline: true},
 		{Command: "- weird: 'yaml' #", Description: "null", Keywords: []string{"true", "123", "~"}, Niche: "!!str"},
 		{Command: "printf 'a\\nb'", Description: "two\nlines zqxsaved", Keywords: []string{"multi\nline"}},
+		// near-twins: different command strings that differ only in blanks or letter case
+		{Command: "grep -F 'a  b' notes.txt", Description: "two blanks zqxsaved", Keywords: []string{"grep"}},
+		{Command: "grep -F 'a b' notes.txt", Description: "one blank zqxsaved", Keywords: []string{"grep"}},
+		{Command: "first  --keep", Description: "two blanks, not the starting entry zqxsaved"},
+		{Command: "FIRST --KEEP ", Description: "upper case and a trailing blank zqxsaved"},
 	}
 }
 
@@ -400,7 +407,8 @@ func c08CLI(c *lib.Ctx, bin string, cs c08Case) (*lib.Violation, string) {
 		last := cs.Saves[len(cs.Saves)-1].cmd()
 		if refContains(&last, "zqxsaved") && utf8.ValidString(last.Command) && !strings.ContainsAny(last.Command, "\n\r") && strings.TrimSpace(last.Command) != "" {
 			mainP := filepath.Join(env.Cwd, "main.yml")
-			writeYAML(mainP, []Cmd{{Command: "main one", Description: "from the main file", Keywords: []string{"mainword"}}})
+			writeYAML(mainP, []Cmd{{Command: "main one", Description: "from the main file", Keywords: []string{"mainword"}},
+				{Command: last.Command, Description: "the main file's own entry for this command", Keywords: []string{"mainword"}}})
 			r := env.run(bin, nil, "--no-color", "-a", "-d", mainP, "zqxsaved")
 			if !strings.Contains(r.Out, last.Command) {
 				return &lib.Violation{Key: "cli-not-searchable", What: fmt.Sprintf("`wtf zqxsaved` after saving %s does not print it: %s", descEntry(&last), truncStr(r.Out, 300)), Case: cs}, obs
@@ -551,7 +559,7 @@ cli:
 func init() {
 	lib.Register(&lib.Check{
 		ID: "C08", Level: "model_checking",
-		Rule:      "(in-process, the real saveToPersonalDatabase through an overlay accessor) every string made of 1 atom or of 2 atoms (all 3,844 ordered pairs; thorough: + all 4,096 triples over 16 hostile atoms) of a 62-atom YAML-hostile alphabet (leading '-', ': ', '#', quotes, '{{...}}', null/true/numbers/dates, multi-line shapes, tabs, leading/trailing space, NUL, BEL, ESC, invalid UTF-8, NEL, LS, BOM, block-scalar and tag indicators, anchors, flow indicators, merge key ...) in each of the 5 string fields x 3 starting notebooks (missing, empty file, 2 entries); + every save history of length <=3 over a 6-entry alphabet (incl. replace-by-command, replacing a starting entry, multi-line and YAML-looking entries) x 3 starts. After every save: if it reported success the re-loaded notebook equals the reference list field by field and in order, otherwise it equals the reference before the save; main + notebook load as main entries followed by notebook entries; a search for the saved entry's word returns it. (process) the real `wtf save` and `wtf save-pipeline` with every argv-safe atom as each argument/flag value after a first ordinary save, same oracle on the notebook file, plus `wtf <word>` printing the saved command. non-trivial = successful saves of non-plain strings",
+		Rule:      "(in-process, the real saveToPersonalDatabase through an overlay accessor) every string made of 1 atom or of 2 atoms (all 3,844 ordered pairs; thorough: + all 4,096 triples over 16 hostile atoms) of a 62-atom YAML-hostile alphabet (leading '-', ': ', '#', quotes, '{{...}}', null/true/numbers/dates, multi-line shapes, tabs, leading/trailing space, NUL, BEL, ESC, invalid UTF-8, NEL, LS, BOM, block-scalar and tag indicators, anchors, flow indicators, merge key ...) in each of the 5 string fields x 3 starting notebooks (missing, empty file, 2 entries); + every save history of length <=3 over a 10-entry alphabet (incl. replace-by-command, replacing a starting entry, multi-line and YAML-looking entries, and near-twin commands that differ only in blanks or letter case) x 3 starts. After every save: if it reported success the re-loaded notebook equals the reference list field by field and in order, otherwise it equals the reference before the save; main + notebook load as main entries followed by notebook entries, also when the main file already lists the saved command string; a search for the saved entry's word returns it. (process) the real `wtf save` and `wtf save-pipeline` with every argv-safe atom as each argument/flag value after a first ordinary save, same oracle on the notebook file, plus `wtf <word>` printing the saved command. non-trivial = successful saves of non-plain strings",
 		Assume:    []string{"yaml.v3's decoder through LoadDatabase defines 're-loading the notebook'", "list-flag values that are empty or contain ',', '\"' or a line break are CSV syntax and are not used as single keywords / platforms", "the write path is reached through an overlay accessor (" + accMode + ")"},
 		QuickSecs: 200, ThorSecs: 1500,
 		Run: c08Run,
